@@ -107,7 +107,11 @@ def assignments(n, tier):
 
 
 def reward(ln, i):
-    return (i % 2) if ln in ("ts", "tsb") else float(2 ** i)
+    if ln in ("ts", "tsb"):
+        return i % 2
+    # row i is rewarded about 2^i (the mean over a neighbourhood identifies its rows); row 0 carries a Python int and
+    # the others fractions, so that a first chunk holding only row 0 is an integer history later chunks must widen
+    return 1 if i == 0 else 2 ** i + 0.5
 
 
 _REF_CACHE = {}
